@@ -14,6 +14,7 @@ import ALV.Lemmas.C03Run
 import ALV.Lemmas.C03Hist
 import ALV.Lemmas.C03Periodic
 import ALV.Lemmas.C03PRun
+import ALV.Lemmas.C03PTotalRun
 import ALV.Lemmas.C03Counts
 import ALV.Common.Audit
 
@@ -287,8 +288,10 @@ theorem hist_ref_snapshot (f : Nat) (s : HSt α) (i j n : Nat) (xs : List α) (h
 
 For endless sources "enough fuel always exists" is false (Python itself never returns from
 `list(Stream(1, 2))`, `Stream(1, 2).take(inf)` or from a `filter` that rejects a whole period), so
-the refinement is stated from the model's side: *whenever the model returns* (`step f … = some`,
-a run without `none`), for whatever fuel `f`.  `PRel false E st sp`: every model object denotes — as an
+the refinement is stated twice: from the model's side — *whenever the model returns* (`step f … =
+some`, a run without `none`), for whatever fuel `f` (`periodic_refines`) — and from the list model's
+side — for the histories on which Python returns (`SpecLive`), enough fuel exists
+(`periodic_total`).  `PRel false E st sp`: every model object denotes — as an
 eventually periodic sequence `pden E it : LSeq`, up to re-folding of the period (`LSeq.Eqv`) — the
 specification object with the same pool index; every tee hub still distributes its sequence. -/
 
@@ -344,6 +347,35 @@ theorem periodic_fuel_irrelevant (ops : List (Op α)) (f f' : Nat)
     run f (St.empty : St α) ops = run f' (St.empty : St α) ops :=
   (periodic_refines ops f h).trans (periodic_refines ops f' h').symm
 
+/-- **C03.6f (finite and periodic sources: enough fuel exists)** the condition under which Python
+itself returns, stated on the list model alone (`SpecLive`, decidable: `spec_live_check`): the list
+model never answers "never returns" (`list()` / `take(inf)` of an endless sequence) and no `filter` is
+applied to an endless sequence whose whole period it rejects.  Then, for every such history of any
+length over finite and periodic sources, with enough fuel the model terminates at every step and the
+whole list of observations is the one of the list model (and none of them is "never returns").
+(`run_refines` states the same for finite sources, where no side condition is needed.) -/
+theorem periodic_total (ops : List (Op α)) (hl : SpecLive ([] : SPool α) ops) :
+    (∃ F, ∀ f, F ≤ f → run f (St.empty : St α) ops = specRun [] ops) ∧
+      ∀ o, o ∈ specRun ([] : SPool α) ops → o ≠ none :=
+  ⟨run_total_from prel_empty ops hl, specLive_no_none ops [] hl⟩
+
+/-- **C03.6g** the condition of `periodic_total` is decided by the executable `specLiveB`. -/
+theorem spec_live_check (sp : SPool α) (ops : List (Op α)) (h : specLiveB sp ops = true) :
+    SpecLive sp ops := specLiveB_sound ops sp h
+
+/-- **C03.6h (`take` returns)** on every iterator built from finite and periodic leaves, tee outputs
+and map / filter / chain / skip / limit wrappers whose filters all sit over sequences they hit
+(`WF true`), `Stream.take` returns with enough fuel for every count — `take(inf)` / `list()` when the
+sequence is finite.  (What it returns: `periodic_take_refines`.) -/
+theorem periodic_take_total {E : List (LSeq α)} {h : Heap α} {it : It α} (hH : PHeapOK true E h)
+    (hO : WF true E h it) (c : Cnt) (hfin : takeMode c = .all → (pden E it).per = []) :
+    ∃ F h' it' o, ∀ f, F ≤ f → takeIt f h it c = some (h', it', o) := takeIt_total hH hO c hfin
+
+/-- **C03.7f (the caller's containers, finite and periodic sources: enough fuel exists)** -/
+theorem hist_total (hops : List (HOp α)) (hl : HSpecLive (⟨[], []⟩ : HSp α) hops) :
+    ∃ F, ∀ f, F ≤ f → hrun f (HSt.empty : HSt α) hops = hspecRun ⟨[], []⟩ hops :=
+  hrun_total_from prel_empty [] hops hl
+
 /-- **C03.7e (histories with the caller's containers, every source)** `hist_refines` over finite
 and periodic sources: whenever the model terminates at every step, every observation and the final
 contents of every container of the caller are those of the list model. -/
@@ -394,7 +426,7 @@ example :
        some (.err "noobj"), some (.new 4), some (.err "IndexError"), some (.items []), some .unit,
        some (.items [1, 3, 1]), some (.items [3, 1])]
     (∀ o, o ∈ run 12 (St.empty : St Int) ops → o ≠ none) ∧ run 12 (St.empty : St Int) ops = obs ∧
-      specRun ([] : SPool Int) ops = obs := by decide +kernel
+      specRun ([] : SPool Int) ops = obs ∧ specLiveB [] ops = true := by decide +kernel
 /-- the side condition is needed: where Python never returns the model runs out of fuel (`none`);
     the list model says "never returns" for `list()` of an endless sequence, and treats a filter that
     rejects the whole period as an empty sequence (outside the property) -/
@@ -403,7 +435,11 @@ example : run 9 (St.empty : St Int) [.new (.cyc [1, 2]), .drain 0] = [some (.new
     ∧ run 9 (St.empty : St Int) [.new (.const 1), .filter 0 (fun x => x != 1), .take 0 .none]
         = [some (.new 0), some .unit, none]
     ∧ specRun ([] : SPool Int) [.new (.const 1), .filter 0 (fun x => x != 1), .take 0 .none]
-        = [some (.new 0), some .unit, some (.err "StopIteration")] := by decide +kernel
+        = [some (.new 0), some .unit, some (.err "StopIteration")]
+    ∧ specLiveB ([] : SPool Int) [.new (.cyc [1, 2]), .drain 0] = false
+    ∧ specLiveB ([] : SPool Int) [.new (.const 1), .filter 0 (fun x => x != 1), .take 0 .none] = false
+    ∧ specLiveB ([] : SPool Int) [.new (.cyc [1, 2]), .filter 0 (fun x => x != 1), .take 0 (.int 3)] = true
+    := by decide +kernel
 /-- `hist` over a periodic source: the caller reverses what `take` returned and appends it again -/
 example : hrun 9 (HSt.empty : HSt Int)
     [.op (.new (.cyc [1, 2])), .op (.take 0 (.int 2)), .edit 0 .reverse, .op (.limit 0 (.int 2)), .appendRef 0 0,
